@@ -699,7 +699,9 @@ class Gen:
                 return mm
         return None
 
-    DEVS = ("forward", "modcall", "shadow-self")
+    # scenarios generated only on demand (recorded findings).  `modcall` and `shadow-self` were deviations until the
+    # implementation was repaired; they are ordinary shapes now (the tags stay, as scenario names)
+    DEVS = ("forward",)
 
     def allowed(self, elems):
         for el in elems:
